@@ -44,18 +44,21 @@ theorem c06_not_enabled (t : K) (ts : List K) :
     solMany (none : Option (List (Seg K))) ts = .notEnabled ∧ solMany (some ([] : List (Seg K))) ts = .notEnabled ∧
     solSpan (none : Option (List (Seg K))) = none := ⟨rfl, rfl, rfl, rfl, rfl⟩
 
+/-- the slack of the range test of `Solution::sol`: the larger of the slacks of the two ends of the span -/
+def spanSlack (x e : K) : K := max (tol (min x e)) (tol (max x e))
+
 /-- no gaps: on the segments of a run, `sol_span` is (start, end); `sol t` succeeds for every `t` of the closed span
-    widened at each end by the lookup slack `time_tol` of that end (so also for a last sample that sits a rounding error beyond `xold + h` of
-    its segment) and is evaluated by a segment whose closed interval (± the same slack) contains `t`; beyond that it is
-    OutOfRange.  Both directions, any number of steps, any step sizes. -/
+    widened at each end by the slack `time_tol` of that end (so also for a last sample that sits a rounding error beyond `xold + h` of
+    its segment) and is evaluated by a segment whose closed interval (± that segment's slack) contains `t`; beyond the span widened
+    by the slack of its larger end it is OutOfRange (in between, either).  Both directions, any number of steps, any step sizes. -/
 theorem c06_cover (fwd : Bool) (x : K) (s : Seg K) (r : List (Seg K)) (hc : Chain fwd x (s :: r)) (t : K) :
     let e := endOf x (s :: r)
     solSpan (some (s :: r)) = some (x, e) ∧ x ≠ e ∧
     (min x e - tol (min x e) ≤ t → t ≤ max x e + tol (max x e) →
       ∃ s' ∈ s :: r, sol (some (s :: r)) t = .ok s'.id ∧
-        min s'.xold (s'.xold + s'.h) - tol (min s'.xold (s'.xold + s'.h)) ≤ t ∧
-        t ≤ max s'.xold (s'.xold + s'.h) + tol (max s'.xold (s'.xold + s'.h))) ∧
-    ((t < min x e - tol (min x e) ∨ max x e + tol (max x e) < t) → sol (some (s :: r)) t = .outOfRange) := by
+        min s'.xold (s'.xold + s'.h) - segSlack s' ≤ t ∧
+        t ≤ max s'.xold (s'.xold + s'.h) + segSlack s') ∧
+    ((t < min x e - spanSlack x e ∨ max x e + spanSlack x e < t) → sol (some (s :: r)) t = .outOfRange) := by
   intro e
   have hspan := tSpan_chain fwd x s r hc
   have hstrict := endOf_strict fwd x s r hc
@@ -71,19 +74,21 @@ theorem c06_cover (fwd : Bool) (x : K) (s : Seg K) (r : List (Seg K)) (hc : Chai
     unfold sol
     dsimp only
     rw [hspan]
-    have hno : ¬ outside t (spanLo x (endOf x (s :: r))) (spanHi x (endOf x (s :: r))) (tol (spanLo x (endOf x (s :: r)))) (tol (spanHi x (endOf x (s :: r)))) := by
-      unfold outside spanLo spanHi
+    have hno : ¬ outside t (spanLo x (endOf x (s :: r))) (spanHi x (endOf x (s :: r))) (segTol (tol (spanLo x (endOf x (s :: r)))) (tol (spanHi x (endOf x (s :: r))))) := by
+      unfold outside spanLo spanHi segTol
       simp only [num_fmin, num_fmax, gt_iff_lt, not_or, not_lt]
-      exact ⟨h1, h2⟩
+      have a1 : tol (min x (endOf x (s :: r))) ≤ max (tol (min x (endOf x (s :: r)))) (tol (max x (endOf x (s :: r)))) := le_max_left _ _
+      have a2 : tol (max x (endOf x (s :: r))) ≤ max (tol (min x (endOf x (s :: r)))) (tol (max x (endOf x (s :: r)))) := le_max_right _ _
+      constructor <;> linarith
     simp only [hno, if_false]
     rw [hf]
   · intro hout
     unfold sol
     dsimp only
     rw [hspan]
-    have : outside t (spanLo x (endOf x (s :: r))) (spanHi x (endOf x (s :: r))) (tol (spanLo x (endOf x (s :: r)))) (tol (spanHi x (endOf x (s :: r)))) := by
-      unfold outside spanLo spanHi
-      simpa only [num_fmin, num_fmax, gt_iff_lt] using hout
+    have : outside t (spanLo x (endOf x (s :: r))) (spanHi x (endOf x (s :: r))) (segTol (tol (spanLo x (endOf x (s :: r)))) (tol (spanHi x (endOf x (s :: r))))) := by
+      unfold outside spanLo spanHi segTol
+      simpa only [num_fmin, num_fmax, gt_iff_lt, spanSlack] using hout
     simp only [this, if_true]
 
 /-- the evaluating segment is the first one (in step order) that contains `t`; if none contains it, the first one that
@@ -107,57 +112,42 @@ theorem c06_first_hit (segs : List (Seg K)) (t : K) (s : Seg K) (h : findSeg seg
     have := List.find?_eq_none.mp hnone a ha
     simpa using this
 
-/-- `sol_many` on the segments of a run never reaches its `unwrap()` on `None`: it is OutOfRange if some point is
-    outside the span and otherwise returns one value per point -/
+/-- `sol_many` has no `unwrap()` on `None` any more: on any segment list it answers OutOfRange, NotEnabled or one value per point,
+    and on the segments of a run it returns one value per point whenever every point lies in the span widened at each end by the
+    slack of that end -/
 theorem c06_many_no_panic (fwd : Bool) (x : K) (s : Seg K) (r : List (Seg K)) (hc : Chain fwd x (s :: r)) (ts : List K) :
     solMany (some (s :: r)) ts ≠ .panic ∧
     ((∀ t ∈ ts, min x (endOf x (s :: r)) - tol (min x (endOf x (s :: r))) ≤ t ∧ t ≤ max x (endOf x (s :: r)) + tol (max x (endOf x (s :: r)))) →
       ∃ ids, solMany (some (s :: r)) ts = .ok ids ∧ ids.length = ts.length) := by
   have hspan := tSpan_chain fwd x s r hc
-  have key : (∀ t ∈ ts, ¬ outside t (spanLo x (endOf x (s :: r))) (spanHi x (endOf x (s :: r))) (tol (spanLo x (endOf x (s :: r)))) (tol (spanHi x (endOf x (s :: r))))) →
-      ∃ ids, solMany (some (s :: r)) ts = .ok ids ∧ ids.length = ts.length := by
-    intro hall
-    have hany : ts.any (fun t => decide (outside t (spanLo x (endOf x (s :: r))) (spanHi x (endOf x (s :: r))) (tol (spanLo x (endOf x (s :: r)))) (tol (spanHi x (endOf x (s :: r)))))) = false := by
-      rw [List.any_eq_false]; intro t ht; simpa using hall t ht
-    have hsome : ∀ t ∈ ts, ∃ c, (fun t => (findSeg (s :: r) t).map (·.id)) t = some c := by
-      intro t ht
-      have hno := hall t ht
-      unfold outside spanLo spanHi at hno
-      simp only [num_fmin, num_fmax, gt_iff_lt, not_or, not_lt] at hno
-      obtain ⟨_, _, hcov, _⟩ := c06_cover fwd x s r hc t
-      obtain ⟨s', _, hs', _⟩ := hcov hno.1 hno.2
-      unfold sol at hs'
-      dsimp only at hs'
-      rw [hspan] at hs'
-      have hno' : ¬ outside t (spanLo x (endOf x (s :: r))) (spanHi x (endOf x (s :: r))) (tol (spanLo x (endOf x (s :: r)))) (tol (spanHi x (endOf x (s :: r)))) := hall t ht
-      simp only [hno', if_false] at hs'
-      cases hf : findSeg (s :: r) t with
-      | none => rw [hf] at hs'; exact absurd hs' (by simp)
-      | some s'' => exact ⟨s''.id, by simp [hf]⟩
-    obtain ⟨ids, hids, hlen⟩ := mapM_some _ ts hsome
-    refine ⟨ids, ?_, hlen⟩
-    unfold solMany; dsimp only; rw [hspan]; simp only [hany]; rw [hids]; rfl
   constructor
   · unfold solMany
     dsimp only
     rw [hspan]
-    by_cases hany : ts.any (fun t => decide (outside t (spanLo x (endOf x (s :: r))) (spanHi x (endOf x (s :: r))) (tol (spanLo x (endOf x (s :: r)))) (tol (spanHi x (endOf x (s :: r)))))) = true
-    · dsimp only; rw [if_pos hany]; intro h; cases h
-    · have hall : ∀ t ∈ ts, ¬ outside t (spanLo x (endOf x (s :: r))) (spanHi x (endOf x (s :: r))) (tol (spanLo x (endOf x (s :: r)))) (tol (spanHi x (endOf x (s :: r)))) := by
-        intro t ht ho
-        apply hany
-        rw [List.any_eq_true]; exact ⟨t, ht, by simpa using ho⟩
-      obtain ⟨ids, hids, _⟩ := key hall
-      unfold solMany at hids
-      dsimp only at hids
-      rw [hspan] at hids
-      rw [hids]; simp
+    dsimp only
+    split
+    · intro h; cases h
+    · split <;> (intro h; cases h)
   · intro hall
-    apply key
-    intro t ht
-    unfold outside spanLo spanHi
-    simp only [num_fmin, num_fmax, gt_iff_lt, not_or, not_lt]
-    exact hall t ht
+    have hno : ∀ t ∈ ts, ¬ outside t (spanLo x (endOf x (s :: r))) (spanHi x (endOf x (s :: r))) (segTol (tol (spanLo x (endOf x (s :: r)))) (tol (spanHi x (endOf x (s :: r))))) := by
+      intro t ht
+      obtain ⟨h1, h2⟩ := hall t ht
+      unfold outside spanLo spanHi segTol
+      simp only [num_fmin, num_fmax, gt_iff_lt, not_or, not_lt]
+      have a1 : tol (min x (endOf x (s :: r))) ≤ max (tol (min x (endOf x (s :: r)))) (tol (max x (endOf x (s :: r)))) := le_max_left _ _
+      have a2 : tol (max x (endOf x (s :: r))) ≤ max (tol (min x (endOf x (s :: r)))) (tol (max x (endOf x (s :: r)))) := le_max_right _ _
+      constructor <;> linarith
+    have hany : ts.any (fun t => decide (outside t (spanLo x (endOf x (s :: r))) (spanHi x (endOf x (s :: r))) (segTol (tol (spanLo x (endOf x (s :: r)))) (tol (spanHi x (endOf x (s :: r))))))) = false := by
+      rw [List.any_eq_false]; intro t ht; simpa using hno t ht
+    have hsome : ∀ t ∈ ts, ∃ c, (fun t => (findSeg (s :: r) t).map (·.id)) t = some c := by
+      intro t ht
+      obtain ⟨h1, h2⟩ := hall t ht
+      have hex : ∃ a ∈ s :: r, hit t a = true := chain_cover_tol fwd x s r hc t h1 h2
+      obtain ⟨s', hf⟩ := findSeg_complete (s :: r) t hex
+      exact ⟨s'.id, by simp [hf]⟩
+    obtain ⟨ids, hids, hlen⟩ := mapM_some _ ts hsome
+    refine ⟨ids, ?_, hlen⟩
+    unfold solMany; dsimp only; rw [hspan]; simp only [hany]; rw [hids]; rfl
 
 /-- `from_segments` drops the handler's zero-length steps and keeps a gap-free chain with the same ends -/
 theorem c06_from_segments (fwd : Bool) (x : K) (raw : List (Seg K)) (hw : WeakChain fwd x raw) :
